@@ -5,6 +5,7 @@ package discoverychain
 
 import (
 	"fmt"
+	"sort"
 	"strings"
 	"time"
 
@@ -451,9 +452,20 @@ func (c *compiler) detectCircularReferences() error {
 }
 
 func (c *compiler) flattenAdjacentSplitterNodes() error {
+	// Visit the nodes in a stable order. Weights are rounded at every level
+	// of flattening, so with more than two levels of nested splitters the
+	// result depends on which splitter is flattened first; ranging over the
+	// map made the compiled weights differ between compilations.
+	nodeNames := make([]string, 0, len(c.nodes))
+	for name := range c.nodes {
+		nodeNames = append(nodeNames, name)
+	}
+	sort.Strings(nodeNames)
+
 	for {
 		anyChanged := false
-		for _, node := range c.nodes {
+		for _, nodeName := range nodeNames {
+			node := c.nodes[nodeName]
 			if node.Type != structs.DiscoveryGraphNodeTypeSplitter {
 				continue
 			}
